@@ -10,6 +10,7 @@ import (
 	"strconv"
 	"strings"
 	"time"
+	_ "time/tzdata" // zone rules embedded: daylight-saving zones are part of the alphabet
 
 	"github.com/foxboron/go-uefi/efi/attributes"
 	"github.com/foxboron/go-uefi/efi/signature"
@@ -345,6 +346,23 @@ func c06Run(c *hx.Ctx, tier, unit string) {
 			time.Date(2024, 3, 31, 1, 0, 0, 0, time.UTC), time.Date(2040, 1, 19, 3, 14, 8, 0, time.UTC), time.Date(2024, 1, 1, 0, 0, 0, 0, time.UTC)}
 		zones := []*time.Location{time.UTC, time.FixedZone("+09:00", 9*3600), time.FixedZone("-08:00", -8*3600), time.FixedZone("+05:45", 5*3600+45*60),
 			time.FixedZone("+14:00", 14*3600), time.FixedZone("-12:00", -12*3600)}
+		// zones with daylight saving time, at instants inside the repeated hour (clocks going back), inside
+		// the skipped hour (clocks going forward) and right at the transitions: a conversion that goes
+		// through the local wall-clock fields is ambiguous exactly there
+		for _, zn := range []string{"Europe/Berlin", "America/New_York", "Australia/Lord_Howe", "America/St_Johns"} {
+			loc, lerr := time.LoadLocation(zn)
+			if lerr != nil {
+				c.Note("time zone %s not available: %v", zn, lerr)
+				continue
+			}
+			for _, base := range []time.Time{time.Date(2024, 10, 27, 0, 0, 0, 0, time.UTC), time.Date(2024, 3, 31, 0, 0, 0, 0, time.UTC), time.Date(2024, 11, 3, 5, 0, 0, 0, time.UTC),
+				time.Date(2024, 3, 10, 6, 0, 0, 0, time.UTC), time.Date(2024, 4, 6, 14, 30, 0, 0, time.UTC), time.Date(2024, 10, 5, 15, 0, 0, 0, time.UTC)} {
+				for m := -90; m <= 150; m += 30 {
+					in := base.Add(time.Duration(m)*time.Minute + 17*time.Second)
+					c06Check(c, "db", *efivar.Db.GUID, 0x27, pls[3], 1, in.In(loc), nil)
+				}
+			}
+		}
 		for _, in := range instants {
 			for _, z := range zones {
 				c.Sample(map[string]any{"instant_utc": in.Format(time.RFC3339), "zone": z.String()})
